@@ -115,10 +115,44 @@ def configs(tier):
 
 
 def cases(tier):
+    i = -1
     for i, cfg in enumerate(configs(tier)):
         cfg["tier"] = tier
         cfg["idx"] = i
         yield cfg
+    yield dict(kind="staged", tier=tier, idx=i + 1)
+
+
+def check_staged(cfg):
+    """staged building from a script: gen_coords is called twice in one process with the same -c path, whose content has grown
+    in between (k1 supplied residues, then k2 > k1); the second call gives what it gives in a fresh directory"""
+    viols, evals, keys = [], 0, []
+    base = [("CH3", 1), ("DI3", 1), ("W", 2)]
+    sysd0 = dict(types=sorted({n for n, _ in base}), molecules=base, box=BOX, grid=GRID, kwargs=dict(nrewind=2, maxiter=3))
+    nres = len(residue_list(sysd0))
+    for kind in ("c", "mc"):
+        for k1 in range(1, nres):
+            for k2 in range(k1 + 1, nres + 1):
+                s1, _ = materialise(dict(sys=sysd0, kind=kind, k=k1, res=None, ign=None))
+                s2, _ = materialise(dict(sys=sysd0, kind=kind, k=k2, res=None, ign=None))
+                evals += 1
+                case1 = dict(kind="staged1", inp=kind, k1=k1, k2=k2)
+                if cfg.get("kind") == "staged1" and (cfg["inp"], cfg["k1"], cfg["k2"]) != (kind, k1, k2):
+                    continue
+                with G.tempdir() as d:
+                    r1 = G.run_gen_coords(s1, Chooser([]), workdir=d)
+                    r2 = G.run_gen_coords(s2, Chooser([]), workdir=d)
+                fresh = G.run_gen_coords(s2, Chooser([]))
+                a = (repr(r2["exc"]), None if not r2["gro"] else r2["gro"][2])
+                b = (repr(fresh["exc"]), None if not fresh["gro"] else fresh["gro"][2])
+                if r1["exc"] is not None or fresh["exc"] is not None:
+                    viols.append(dict(assertion="building-with-supplied-coordinates-succeeds", tags=["staged"], message=f"-{kind} k1={k1} k2={k2}: {r1['exc']!r} / {fresh['exc']!r}", case=case1, detail={}))
+                elif a != b and len(viols) < 20:
+                    viols.append(dict(assertion="supplied-atom-coordinates-exact", tags=["staged", "same-path-new-content"],
+                                      message=f"second gen_coords call in one process, same -{kind} path now holding {k2} instead of {k1} residues: "
+                                              f"{'exception ' + a[0] if a[0] != 'None' else 'the written structure differs from the one written in a fresh directory'}", case=case1, detail={}))
+                keys.append(f"staged:{kind}:{k1}:{k2}")
+    return dict(evals=evals, keys=keys, violations=viols, stats={"staged_runs": evals}, sample=dict(kind="staged", runs=evals))
 
 
 def materialise(cfg):
@@ -192,6 +226,9 @@ def materialise(cfg):
 
 def run_exec(sysd, chooser):
     return G.run_gen_coords(sysd, chooser, fault_steps=True, fault_attempts=True)
+
+
+_STAGED = ("staged", "staged1")
 
 
 def judge(cfg, sysd, exp, res, choices):
@@ -335,6 +372,8 @@ def ignored_do_not_disturb(cfg, sysd, exp, stats):
 
 
 def run_case(cfg):
+    if cfg.get("kind") in _STAGED:
+        return check_staged(cfg)
     sysd, exp = materialise(cfg)
     if "choices" in cfg:
         res = run_exec(sysd, Chooser(cfg["choices"]))
